@@ -129,7 +129,7 @@ package cache
 //@ pred PElem(p *pb.Path) := ite(p == nil, emptyseq("*pb.PathElem"), view(p.Elem))
 //@ pred PElement(p *pb.Path) := ite(p == nil, emptyseq("string"), view(p.Element))
 //@ func toDeleteNotification
-//@   props C03 C12 C01
+//@   props C03 C12 C01 C06
 //@   requires NotiWf(n) && len(n.Update) >= 1
 //@   ensures fresh(res0) && res0 != nil && res0.Timestamp == timestamp && res0.Prefix != nil && fresh(res0.Prefix)
 //@   ensures len(res0.Delete) == 1 && res0.Delete[0] != nil && len(res0.Update) == 0
@@ -464,6 +464,7 @@ package cache
 //@   requires c != nil && Globals() && len(owed) == 0
 //@   modifies ghost tstore, ghost treal, ghost intAdded, ghost boolSets, ghost lastBool, ghost strSets, ghost lastStr, ghost latSamples, ghost lastSampleTs, ghost lastSynced, ghost owed, ghost updSteps, ghost wiped, ghost resetDone, heap(ctree.Tree.leafBranch), heap(Target.sync), heap(Target.ts)
 //@   assert at call (*Target).Reset#0: [addressed-target-only C14] arg0 == c.targets[target]
+//@   assert at call (*Target).Reset#0: [the-target-cannot-be-removed-or-replaced-while-it-is-being-reset C14] rheld(c.mu)
 //@   ensures [other-targets-untouched C14] forall u ref :: c.targets[target] == nil || u != c.targets[target].t ==> tstore[u] == old(tstore[u]) && treal[u] == old(treal[u])
 //@   ensures [only-this-target-announced C14] forall s string :: s != target ==> wiped[s] == old(wiped[s])
 
